@@ -1,4 +1,4 @@
-//verif:needs core,sip,prod
+//verif:needs core,sip,prod,lab
 package main
 
 // C11 - TCP framing depends on the bytes, not on how the stream is segmented.
@@ -12,6 +12,7 @@ import (
 	"io"
 	"sort"
 	"testing"
+	"time"
 
 	"pgregory.net/rapid"
 )
@@ -287,6 +288,127 @@ func TestC11(t *testing.T) {
 				V.Case(s.desc(cuts))
 				failf(rt, "%s", msg)
 			}
+		}
+	})
+
+	c11Lab(t)
+}
+
+// c11Lab: a real TCP client writes generated streams in scripted segments
+// (TCP_NODELAY, a pause between writes) to the real accept/receive goroutines;
+// the backends must receive exactly those messages, each intact.
+func c11Lab(t *testing.T) {
+	V.Require("lab: segmented stream relayed intact")
+	svc, err := newStdSvc(stdVariant{})
+	if err != nil {
+		V.HarnessError(t, "cannot start lab instance: %v", err)
+	}
+	s := svc
+	rcheck(t, "lab-segments", V.N(40, 500), func(rt *rapid.T) {
+		entry := rapid.IntRange(0, 1).Draw(rt, "entry")
+		l := s.in.cfg.Listens[entry]
+		n := rapid.IntRange(1, 6).Draw(rt, "messages")
+		var msgs []*AMsg
+		var stream []byte
+		var wires [][]byte
+		for i := 0; i < n; i++ {
+			for k := rapid.IntRange(0, 4).Draw(rt, "keepalive"); k > 2; k-- {
+				stream = append(stream, "\r\n"...)
+			}
+			m := gAnyMsg(rt, fmt.Sprintf("m%d", i), anyOpts{MaxExt: 6, MaxLong: 9000, MaxBody: 20000, AllowLF: true})
+			// make it a request for the service with a unique Call-ID
+			m.IsReq, m.Method, m.RURI, m.Version = true, "MESSAGE", AURI{Scheme: "sip", User: "u", Host: "svc.test"}, "SIP/2.0"
+			var hs []AHdr
+			for _, h := range m.Hdrs {
+				if h.Kind == hRoute {
+					continue
+				}
+				if h.Kind == hCallID {
+					h.Value = s.nextID("c11-")
+				}
+				if h.Kind == hTo {
+					h.NAs = []ANameAddr{{URI: AURI{Scheme: "sip", User: "x", Host: "nomatch.example"}}}
+				}
+				if h.Kind == hCSeq {
+					h.Value = "1 MESSAGE"
+				}
+				hs = append(hs, h)
+			}
+			m.Hdrs = hs
+			msgs = append(msgs, m)
+			wires = append(wires, m.Bytes())
+			stream = append(stream, m.Bytes()...)
+		}
+		// segmentation
+		var cuts []int
+		L := len(stream)
+		switch rapid.IntRange(0, 3).Draw(rt, "recipe") {
+		case 0:
+			for i, k := 0, rapid.IntRange(1, 30).Draw(rt, "k"); i < k; i++ {
+				cuts = append(cuts, rapid.IntRange(1, L-1).Draw(rt, "cut"))
+			}
+		case 1:
+			sz := rapid.SampledFrom([]int{1, 7, 100, 1460, 4096, 4097}).Draw(rt, "size")
+			if sz < 100 && L > 3000 {
+				sz = 100
+			}
+			for i := sz; i < L; i += sz {
+				cuts = append(cuts, i)
+			}
+		case 2:
+			a := rapid.IntRange(1, L-1).Draw(rt, "from")
+			for i := a; i < a+60 && i < L; i++ {
+				cuts = append(cuts, i)
+			}
+		}
+		sort.Ints(cuts)
+		c, err := s.in.hub.dialTCP("c11", s.ip(13), l.Addr, l.TCPPort)
+		if err != nil {
+			failf(rt, "TCP listener does not accept: %v", err)
+		}
+		defer c.close()
+		V.Journal(t.Name()+"/lab-segments", map[string]any{"messages": n, "stream_len": L, "cuts": c11ShortCuts(cuts)})
+		s.model.learnRequest(s.model.transport(entry, "tcp"), s.ip(13), &AMsg{IsReq: true})
+		s.in.expect(wires...)
+		pos := 0
+		for _, cut := range append(cuts, L) {
+			if cut <= pos {
+				continue
+			}
+			if err := c.send(stream[pos:cut]); err != nil {
+				failf(rt, "the proxy closed the connection in the middle of a well-formed stream (after %d of %d bytes): %v", pos, L, err)
+			}
+			pos = cut
+			if len(cuts) < 200 {
+				time.Sleep(50 * time.Microsecond)
+			}
+		}
+		rs, err := s.in.settle(c.send, n)
+		if _, lost := err.(labLost); lost {
+			failf(rt, "%v (stream of %d messages, %d bytes, cuts %v)", err, n, L, c11ShortCuts(cuts))
+		} else if err != nil {
+			V.HarnessError(rt, "%v", err)
+		}
+		got := labMessages(rs)
+		V.Class("lab: segmented stream relayed intact")
+		V.NonTrivial(fmt.Sprintf("%x|%v", hash64(string(stream)), c11ShortCuts(cuts)))
+		byID := map[string][]labRx{}
+		for _, r := range got {
+			id, _ := r.msg.First(hCallID)
+			byID[id] = append(byID[id], r)
+		}
+		for i, m := range msgs {
+			id := m.First(hCallID).Value
+			rs := byID[id]
+			if len(rs) != 1 {
+				failf(rt, "message %d of %d in the stream was relayed %d times (stream %d bytes, cuts %v)", i+1, n, len(rs), L, c11ShortCuts(cuts))
+			}
+			if f := checkContent(m, rs[0].msg); f != "" {
+				failf(rt, "message %d of %d in the stream (cuts %v): %s", i+1, n, c11ShortCuts(cuts), f)
+			}
+		}
+		if len(got) != n {
+			failf(rt, "%d messages were relayed for a stream of %d messages", len(got), n)
 		}
 	})
 }
